@@ -10,8 +10,8 @@
    preserved (InvFacts), so EVERY board reached from a parsed board or the standard position by moves the
    checked operations accept carries the from-scratch hash (C04_reachable) and boards that compare equal
    hash equal whatever move order produced them (C04_pure_function).
-   Side conditions of the reachability induction, stated in `Reach`: the mover has a king (kings are never
-   captured: that is C01) and the position owes at most 400 moves (real positions: <= 218). *)
+   Side condition of the reachability induction, stated in `Reach`: the mover has a king (kings are never
+   captured: that is C01; discharged in proofs/Reachable.v). *)
 From Coq Require Import NArith List Bool.
 From Chess Require Import base.Bits base.Types gen.T_zobrist base.BitBoard model.Board model.MoveGen model.Apply model.Fen proofs.ZobristFacts proofs.HashFacts spec.IterSpec proofs.InvFacts proofs.Combine.
 Local Open Scope N_scope.
@@ -60,7 +60,7 @@ Print Assumptions C04_apply_consistent.
 
 Theorem C04_incremental : forall b m, Part b -> b_zob b = scratch_piece_hash b ->
   b_rights b < 16 -> (forall f, b_ep b = Some f -> f < 8) -> validate b = None ->
-  (length (content (legals_gen b)) <= 400)%nat -> is_legal b m = true ->
+  is_legal b m = true ->
   Part (apply b m) /\ b_zob (apply b m) = scratch_piece_hash (apply b m).
 Proof. exact apply_legal_consistent_validated. Qed.
 Print Assumptions C04_incremental.
